@@ -40,6 +40,10 @@ def mk_pkg(rnd, name, kind, k0):
         # does not type-check: goose has no translation for it at all
         src = "package %s\n\nfunc Broken%d() uint64 {\n\treturn \"not a number\"\n}\n" % (name, k0)
         return {"f0.go": src}, {"f0.go": "package %s\n" % name}, True
+    if kind == "big":
+        # an output file well above 64 KiB (no error): the unchanged-content test must look at all of it
+        body = "package %s\n\n" % name + "\n".join(GOOD_DECLS[d % len(GOOD_DECLS)] % {"k": k0 * 100 + d} for d in range(900))
+        return {"f0.go": body}, {"f0.go": body}, False
     nfiles = rnd.randrange(1, 3)
     files, reduced = {}, {}
     k = k0
@@ -68,10 +72,15 @@ def scenarios(seed, tier):
     rnd = random.Random(seed)
     n = 24 if tier == "quick" else 400
     for s in range(n):
-        dirs = rnd.sample(["a", "b", "sub/c", "d-e", "v.1/f", "z"], rnd.randrange(1, 5))
+        # (sub/a and x/z are packages with the same NAME as a and z)
+        dirs = rnd.sample(["a", "b", "sub/c", "d-e", "v.1/f", "z", "sub/a", "x/z"], rnd.randrange(1, 6))
+        if s < 2:
+            dirs = ["a", "sub/a", "z", "x/z"]        # always present: two pairs of same-named packages, one of them large
         pkgs, reduced, kinds, errs = {}, {}, {}, {}
         for i, d in enumerate(dirs):
-            kind = rnd.choice(["good", "good", "bad", "mixed", "good", "good", "bad", "mixed", "broken"])
+            kind = rnd.choice(["good", "good", "bad", "mixed", "good", "good", "bad", "mixed", "broken", "big"])
+            if s < 2:
+                kind = "big" if d == "a" else ("bad" if (s == 1 and d == "x/z") else "good")
             name = d.split("/")[-1].replace("-", "_").replace(".", "_")
             files, red, he = mk_pkg(rnd, name, kind, 100 * i)
             # build-tag guarded files: only the `goose` one belongs to the package goose sees
@@ -97,6 +106,9 @@ def scenarios(seed, tier):
             matched = list(dirs)
             patterns = ["./..."]
         prior = {d: rnd.choice(["a", "a", "s", "d"]) for d in matched}
+        for d in matched:
+            if kinds[d] == "big" and (rnd.random() < 0.7 or s < 2):
+                prior[d] = "s"
         if rnd.random() < 0.15:
             prior[matched[-1]] = "u"
         yield {"pkgs": pkgs, "reduced": reduced, "kinds": kinds, "errs": errs, "patterns": patterns, "matched": matched,
@@ -295,6 +307,7 @@ def check(ctx):
                 found = True
                 ctx.violation("counterexample", "sources selected differ from `go list -tags goose` (build constraints other than the goose tag)",
                               {"proto": "cli-cmd", "module": "m", "packages": {"sub": one["sub"]}}, expected={"files": listed, "definitions": want}, observed={"definitions": got})
+        found = gomod.retranslate_stream(ctx, scratch, "goose command: a stale output file was not replaced by the new translation", found)
     finally:
         shutil.rmtree(scratch, ignore_errors=True)
     C.report_broken_obligations(ctx, build, found)
@@ -320,4 +333,8 @@ def check(ctx):
 
 
 def replay(ctx, path):
+    _inp = json.load(open(path)).get("input", {})
+    if isinstance(_inp, dict) and _inp.get("proto") == "retranslate":
+        C.ensure_built("C17", ["cmd"], need_harness=False, extra_go=gomod.EXTRA_GO)
+        return gomod.replay_retranslate(_inp)
     return check(ctx)
